@@ -40,7 +40,8 @@ META = {
         "mdit_py_plugins.anchors.index (the code behind the myst-anchors command): R1 - the candidate rebuilt in the "
         "`while cand in taken` loop is composed of a loop-invariant base, a separator and a counter, and (separator, first "
         "suffix, step) equal the plugin's; whatever the uniquifier returns passed a `not in taken` edge after its last "
-        "definition on every CFG path; the registry handed to the uniquifier is the one the computed slug is recorded in. "
+        "definition on every CFG path; the registry handed to the uniquifier is the one the computed slug is recorded in and is "
+        "re-created (empty) on every path of a method that render() runs. "
         "R2 - the regex (parsed tree, flags, replacement), the ordered str-method pipeline applied to the title, and the "
         "title construction (join separator, attribute, token-type set, inline-token offset) agree with the plugin; the CLI "
         "installs the plugin with the level it filters by, inclusively, builds its parser with the factory both front ends use, "
@@ -334,7 +335,7 @@ def _cus_call_sites(corpus: Corpus) -> list[tuple[FunctionInfo, ast.Call]]:
 
 @rule("C10.R1")
 def r1_uniquifier(corpus: Corpus, rep: Report, tier: str):
-    rep.rule("C10.R1", "uniquifier: returned slug re-checked against the registry; candidate = invariant base + separator + counter, equal to the plugin's; slug recorded in the registry it was checked against")
+    rep.rule("C10.R1", "uniquifier: returned slug re-checked against the registry; candidate = invariant base + separator + counter, equal to the plugin's; slug recorded in the registry it was checked against; registry emptied for every render")
     cus = corpus.func(CUS)
     rep.saw_function(cus.fq)
     # (d) whatever is returned was tested against the registry after its last definition
@@ -456,6 +457,59 @@ def _r1_shape(corpus: Corpus, rep: Report, cus: FunctionInfo, sh: dict) -> None:
         rep.violation("C10.R1", k, site, f"(separator, first suffix, step) = {mine} but {SIBLING}:{sfi.qualname} (the myst-anchors CLI) uses {theirs}")
 
 
+def _registry_resets(corpus: Corpus, fi: FunctionInfo, reg: ast.expr) -> tuple[list, list]:
+    """Plain assignments `self.<registry> = <empty dict>` in the class of ``fi``: (in a method every render runs, elsewhere)."""
+    if not (isinstance(reg, ast.Attribute) and isinstance(reg.value, ast.Name) and reg.value.id == "self" and fi.cls is not None):
+        raise Unsupported(f"{fi.fq}: slug registry `{unparse(reg)}` is not an attribute of the renderer")
+    g = get_callgraph(corpus)
+    render = corpus.lookup_method(fi.cls, "render")
+    if render is None:
+        raise Unsupported(f"{fi.cls.fq}: no render method")
+    reach = set(g.reachable([render]))
+    per_render, elsewhere = [], []
+    for c in corpus.mro(fi.cls):
+        for m in c.methods.values():
+            for n in walk_local(m.node):
+                tg = n.targets if isinstance(n, ast.Assign) else ([n.target] if isinstance(n, ast.AnnAssign) and n.value is not None else [])
+                if not any(isinstance(t, ast.Attribute) and unparse(t) == unparse(reg) for t in tg):
+                    continue
+                v = n.value
+                empty = (isinstance(v, ast.Dict) and not v.keys) or (isinstance(v, ast.Call) and dotted(v.func) in ("dict", "OrderedDict") and not v.args and not v.keywords)
+                if not empty:
+                    raise Unsupported(f"{m.module.site(n)}: `{unparse(reg)}` is assigned something other than an empty dict")
+                cfg = get_cfg(m)
+                every_path = cfg.postdominates(cfg.stmt_of(n), "ENTRY")
+                if m.fq in reach and m.name != "__init__" and every_path:
+                    per_render.append((m, n))
+                else:
+                    elsewhere.append((m, n, "only on some paths" if (m.fq in reach and m.name != "__init__") else "not run by render()"))
+    return per_render, elsewhere
+
+
+def _r1_registry_reset(corpus: Corpus, rep: Report, fi: FunctionInfo, reg: ast.expr) -> None:
+    # (e) the registry starts empty for every document
+    reg_node = reg
+    if isinstance(reg, ast.Name):
+        ds = _assigns_to(fi, reg.id)
+        if len(ds) == 1 and isinstance(ds[0], ast.Assign):
+            reg_node = ds[0].value
+    per_render, elsewhere = _registry_resets(corpus, fi, reg_node)
+    ke = f"{fi.cls.fq}|slug registry re-created for every render"
+    if per_render:
+        rep.ok("C10.R1", ke, per_render[0][0].module.site(per_render[0][1]), f"`{unparse(reg_node)} = {{}}` in {per_render[0][0].qualname}, which render() always runs")
+    elif elsewhere:
+        m, n, why = elsewhere[0]
+        rep.violation(
+            "C10.R1",
+            ke,
+            m.module.site(n),
+            f"`{unparse(reg_node)}` is emptied only in {m.qualname} ({why}): a second document rendered with the same parser object still sees the first "
+            "document's slugs, so its first `# a` becomes `a-1` (not unique-per-document numbering, and not what myst-anchors prints)",
+        )
+    else:
+        raise Unsupported(f"{fi.cls.fq}: no assignment of an empty dict to `{unparse(reg_node)}` found")
+
+
 def _r1_registry(corpus: Corpus, rep: Report, cus: FunctionInfo) -> None:
     # (c) registry identity at every call site
     taken = uniq_taken_param(corpus)
@@ -503,6 +557,14 @@ def _r1_registry(corpus: Corpus, rep: Report, cus: FunctionInfo) -> None:
             if handed_on or other_store:
                 raise Unsupported(f"{csite}: how `{res}` is recorded in `{unparse(reg)}` is not understood")
             rep.violation("C10.R1", k, csite, f"the computed slug `{res}` is never recorded in `{unparse(reg)}`: a later equal title gets the same anchor")
+        n_viol = len([v for v in rep.violations() if v.rule == "C10.R1" and v.key == k])
+        try:
+            _r1_registry_reset(corpus, rep, fi, reg)
+        except Unsupported as e:
+            if n_viol:
+                rep.note(f"C10.R1: registry reset not judged: {e}")
+            else:
+                raise
 
 
 # ---------------------------------------------------------------------------
@@ -1059,6 +1121,21 @@ def _factory_fields(corpus: Corpus, factory: FunctionInfo) -> dict[str, list[ast
     return out
 
 
+def _factory_closure(corpus: Corpus, h: FunctionInfo, depth: int = 2) -> dict[str, FunctionInfo]:
+    """``h`` and the package functions it hands its configuration parameter on to (as first argument)."""
+    out = {h.fq: h}
+    if depth <= 0 or h.is_lambda or not h.params:
+        return out
+    g = get_callgraph(corpus)
+    cfgp = h.params[0]
+    for call, targets in g.callees(h):
+        if call.args and isinstance(call.args[0], ast.Name) and call.args[0].id == cfgp:
+            for t in g.flat_targets(targets):
+                if not t.is_lambda and t.fq not in out and t.module.name.startswith("myst_parser.parsers"):
+                    out.update(_factory_closure(corpus, t, depth - 1))
+    return out
+
+
 def _field_default(corpus: Corpus, fld: str):
     ci = corpus.cls("config.main:MdParserConfig")
     for st in ci.node.body:
@@ -1096,7 +1173,16 @@ def _r2_cli_tokeniser(corpus: Corpus, rep: Report, cli: Module, pa: FunctionInfo
         raise Unsupported(f"front ends build their parsers with different factories: {sorted(factories)}")
     factory = corpus.func(factories.pop().replace("myst_parser.", "", 1))
     rep.saw_function(factory.fq)
-    calls = [(call, targets) for call, targets in g.callees(pa) if any(t.fq == factory.fq for t in g.flat_targets(targets))]
+    # a factory may wrap another one (cache, convenience wrapper): the functions that receive the same
+    # configuration object onwards build the same parser
+    family = _factory_closure(corpus, factory)
+    calls = []
+    for call, targets in g.callees(pa):
+        for t in g.flat_targets(targets):
+            if not t.is_lambda and t.params and set(_factory_closure(corpus, t)) & set(family):
+                calls.append((call, targets))
+                family = {**family, **_factory_closure(corpus, t)}
+                break
     k = f"{pa.fq}|CLI parser built by the renderers' factory with the default configuration"
     # the parser object `.use(anchors_plugin)` is applied to
     pvar = use.func.value
@@ -1137,7 +1223,10 @@ def _r2_cli_tokeniser(corpus: Corpus, rep: Report, cli: Module, pa: FunctionInfo
         break
     if not cli.resolve(dotted(node.func) or "").endswith("config.main.MdParserConfig"):
         raise Unsupported(f"{cli.site(node)}: configuration is not an MdParserConfig(...) construction")
-    fields = _factory_fields(corpus, factory)
+    fields: dict[str, list[ast.Attribute]] = {}
+    for member in family.values():
+        for f_, ns in _factory_fields(corpus, member).items():
+            fields.setdefault(f_, []).extend(ns)
     if len(fields) < 5:
         raise Unsupported(f"{factory.fq}: reads only {len(fields)} config fields; factory not understood")
     bad = {}
@@ -1583,19 +1672,40 @@ def _exports(corpus: Corpus, wfi: FunctionInfo, reg: str) -> list[tuple[str, str
                         out.append(("attr", t.attr, f.module.site(n)))
                     elif isinstance(t, ast.Subscript) and isinstance(t.slice, ast.Constant) and isinstance(t.slice.value, str):
                         out.append(("key", t.slice.value, f.module.site(n)))
+                    elif isinstance(t, ast.Subscript) and not isinstance(t.slice, ast.Constant) and isinstance(t.value, ast.Attribute):
+                        # <obj>.<attr>[<docname>] = registry: a per-document map held in an attribute
+                        out.append(("attrmap", t.value.attr, f.module.site(n)))
                     else:
                         raise Unsupported(f"{f.module.site(n)}: slug registry published in a form that is not understood")
     return out
 
 
-def _reader_exprs(f: FunctionInfo, kind: str, name: str) -> list[ast.AST]:
+def _selected(n: ast.AST) -> ast.AST | None:
+    """`n[<expr>]` / `n.get(<expr>, ...)` with a non-literal key: one entry of a per-document map."""
+    q = parent(n)
+    if isinstance(q, ast.Subscript) and q.value is n and not isinstance(q.slice, ast.Constant) and isinstance(q.ctx, ast.Load):
+        return q
+    if isinstance(q, ast.Attribute) and q.value is n and q.attr == "get":
+        c = parent(q)
+        if isinstance(c, ast.Call) and c.func is q and c.args and not isinstance(c.args[0], ast.Constant):
+            return c
+    return None
+
+
+def _reader_exprs(f: FunctionInfo, kind: str, name: str, map_names: frozenset = frozenset()) -> list[ast.AST]:
     out = []
     for n in f.local_nodes():
-        if kind == "attr":
-            if isinstance(n, ast.Call) and dotted(n.func) == "getattr" and len(n.args) >= 2 and isinstance(n.args[1], ast.Constant) and n.args[1].value == name:
+        if kind in ("attr", "attrmap"):
+            hit = (isinstance(n, ast.Call) and dotted(n.func) == "getattr" and len(n.args) >= 2 and isinstance(n.args[1], ast.Constant) and n.args[1].value == name) or (
+                isinstance(n, ast.Attribute) and n.attr == name and isinstance(n.ctx, ast.Load)
+            )
+            if not hit:
+                continue
+            sel = _selected(n)
+            if kind == "attr" and not (name in map_names and sel is not None):
                 out.append(n)
-            elif isinstance(n, ast.Attribute) and n.attr == name and isinstance(n.ctx, ast.Load):
-                out.append(n)
+            elif kind == "attrmap" and sel is not None:
+                out.append(sel)
         else:
             if isinstance(n, ast.Call) and isinstance(n.func, ast.Attribute) and n.func.attr == "get" and n.args and isinstance(n.args[0], ast.Constant) and n.args[0].value == name:
                 out.append(n)
@@ -1674,7 +1784,7 @@ def r5_record_layout(corpus: Corpus, rep: Report, tier: str):
         for f in corpus.all_functions():
             if f.is_lambda or (f.cls is not None and wfi.cls is not None and f.cls.fq == wfi.cls.fq):
                 continue
-            for r in _reader_exprs(f, kind, name):
+            for r in _reader_exprs(f, kind, name, frozenset(n_ for k_, n_, _ in exports if k_ == "attrmap")):
                 found += 1
                 n_readers += 1
                 rep.saw_function(f.fq)
@@ -1916,8 +2026,19 @@ def _explicit_only(f: FunctionInfo, store: ast.AST, table: str) -> tuple[str, st
         if not (isinstance(loop.target, ast.Tuple) and len(loop.target.elts) == 2 and isinstance(loop.target.elts[1], ast.Name)):
             raise Unsupported(f"{f.module.site(loop)}: loop target over nametypes.items() not understood")
         flag = loop.target.elts[1].id
-    elif _is_nametypes(it) or (isinstance(it, ast.Call) and isinstance(it.func, ast.Attribute) and it.func.attr == "keys" and _is_nametypes(it.func.value)) or (isinstance(it, ast.Attribute) and it.attr == "nameids"):
-        flag = None
+    elif (
+        _is_nametypes(it)
+        or (isinstance(it, ast.Attribute) and it.attr == "nameids")
+        or (
+            isinstance(it, ast.Call)
+            and isinstance(it.func, ast.Attribute)
+            and it.func.attr in ("keys", "items")
+            and not it.args
+            and isinstance(it.func.value, ast.Attribute)
+            and it.func.value.attr in ("nametypes", "nameids")
+        )
+    ):
+        flag = None  # the loop does not bind docutils' explicit flag: a `nametypes[name]` guard is needed
     else:
         raise Unsupported(f"{f.module.site(loop)}: `{table}` is filled from `{short(it, 40)}`, not from the document's name registry")
     st = cfg.stmt_of(store)
@@ -1936,11 +2057,12 @@ def r6_slug_preemption(corpus: Corpus, rep: Report, tier: str):
     rep.rule("C10.R6", "in the '#anchor' resolver only explicit targets may pre-empt the slug lookup (implicit section names are derived from the same titles as the slugs)")
     wfi, wst, reg, kinds = _writer(corpus)
     n = 0
-    for kind, name, esite in _exports(corpus, wfi, reg):
+    exports = _exports(corpus, wfi, reg)
+    for kind, name, esite in exports:
         for f in corpus.all_functions():
             if f.is_lambda or (f.cls is not None and wfi.cls is not None and f.cls.fq == wfi.cls.fq):
                 continue
-            for r in _reader_exprs(f, kind, name):
+            for r in _reader_exprs(f, kind, name, frozenset(n_ for k_, n_, _ in exports if k_ == "attrmap")):
                 var = _reader_var(r)
                 if var is None:
                     continue  # R5 reports it
@@ -2026,6 +2148,26 @@ def mutants(corpus: Corpus):
         rets = [r for r in walk_local(cus.node) if isinstance(r, ast.Return) and isinstance(r.value, ast.Name) and r.value.id == sh["cand"]]
         if rets and sh["base"] != sh["cand"]:
             out.append(Mutant("c10-uniq-returns-base", "C10.R1", base.rel, splice(src, rets[-1].value, sh["base"]), expect="tested against the registry"))
+    # class "the registry outlives the document": initialised once / reset only on some paths
+    for fi, call in _cus_call_sites(corpus):
+        reg = arg_or_kw(call, 1, "slugs")
+        if reg is None or fi.module is not base or fi.cls is None:
+            continue
+        try:
+            per_render, _else = _registry_resets(corpus, fi, reg)
+        except Unsupported:
+            per_render = []
+        init = fi.cls.methods.get("__init__")
+        if per_render and init is not None and per_render[0][0].module is base:
+            m, n = per_render[0]
+            seg = segment(src, n)
+            ind = " " * n.col_offset
+            out.append(Mutant("c10-registry-reset-conditional", "C10.R1", base.rel, splice(src, n, f"if not hasattr(self, {reg.attr!r}):\n{ind}    {seg}"), expect="re-created for every render"))
+            last = init.node.body[-1]
+            if last.lineno < n.lineno:
+                s2 = splice(src, n, "pass")
+                s2 = splice(s2, last, segment(src, last) + "\n" + " " * last.col_offset + seg)
+                out.append(Mutant("c10-registry-init-only", "C10.R1", base.rel, s2, expect="re-created for every render"))
     for fi, call in _cus_call_sites(corpus):
         reg = arg_or_kw(call, 1, "slugs")
         if reg is not None and fi.module is base:
@@ -2096,6 +2238,9 @@ def mutants(corpus: Corpus):
             s2 = splice(s2, loop.iter, segment(tm.src, loop.iter.func.value))
             s2 = splice(s2, loop.target, segment(tm.src, loop.target.elts[0]))
             out.append(Mutant("c10-preempt-all-names", "C10.R6", tm.rel, s2, expect="pre-empted"))
+            s3 = splice(tm.src, g.test, "False")
+            s3 = splice(s3, loop.iter.func.value, segment(tm.src, loop.iter.func.value.value) + ".nameids")
+            out.append(Mutant("c10-preempt-nameids-items", "C10.R6", tm.rel, s3, expect="pre-empted"))
     # ---- R3
     for fi, call in _cus_call_sites(corpus):
         if fi.module is not base:
